@@ -4,7 +4,7 @@
 # main checkout can keep running checks. Results: /tmp/vseed-results/<Cxx>-m<k>.log
 set -u
 VS=/tmp/vseed
-if [ ! -d $VS ]; then git -C /verif worktree add -q --detach $VS HEAD && (cd $VS && ./setup.sh >/dev/null 2>&1); else git -C $VS checkout -q --detach $(git -C /verif rev-parse HEAD) && (cd $VS && ./setup.sh >/dev/null 2>&1); fi
+if [ ! -d $VS ]; then git -C /verif worktree add -q --detach $VS HEAD && (cd $VS && ./setup.sh >/dev/null 2>&1); else git -C $VS checkout -q -f --detach $(git -C /verif rev-parse HEAD) && (cd $VS && ./setup.sh >/dev/null 2>&1); fi
 mkdir -p /tmp/vseed-results
 for P in "$@"; do
   for D in /tmp/seed-$P/out/m*; do
